@@ -260,6 +260,10 @@ pub struct Record {
     /// Names embedded in the RDATA (RFC 1035 types, plus SRV / CH A where
     /// they are parsed as *uncompressed* names).
     pub rdata_names: Vec<DecName>,
+    /// The RDATA of an RFC 1035 name-bearing type has the wrong number
+    /// of octets after its names (possible when a zone holds malformed
+    /// RDATA, which the zone API accepts and the server passes through).
+    pub irregular: bool,
     pub start: usize,
     pub end: usize,
 }
@@ -316,7 +320,7 @@ pub fn decode_rdata(
     rtype: u16,
     start: usize,
     rdlength: usize,
-) -> Result<(Vec<u8>, Vec<DecName>), String> {
+) -> Result<(Vec<u8>, Vec<DecName>, bool), String> {
     let end = start + rdlength;
     if end > msg.len() {
         return Err("RDATA extends past end of message".into());
@@ -338,19 +342,13 @@ pub fn decode_rdata(
             out.extend_from_slice(&dn.name.wire());
             names.push(dn);
         }
-        let rest = &msg[pos..end];
-        if let Some(suffix) = suffix {
-            if rest.len() != suffix {
-                return Err(format!(
-                    "RDATA of type {} has {} octets after its names, expected {}",
-                    rtype,
-                    rest.len(),
-                    suffix
-                ));
-            }
+        if pos > end {
+            return Err(format!("names in RDATA of type {} run past RDLENGTH", rtype));
         }
+        let rest = &msg[pos..end];
+        let irregular = suffix.map_or(false, |s| rest.len() != s);
         out.extend_from_slice(rest);
-        Ok((out, names))
+        Ok((out, names, irregular))
     } else if (rtype == T_SRV && class == C_IN) || (rtype == T_A && class == C_CH) {
         // Names that must NOT be compressed (RFC 3597 §4). Parse them as
         // uncompressed names when possible so monitors can look at them;
@@ -362,9 +360,9 @@ pub fn decode_rdata(
                 names.push(dn);
             }
         }
-        Ok((raw.to_vec(), names))
+        Ok((raw.to_vec(), names, false))
     } else {
-        Ok((raw.to_vec(), Vec::new()))
+        Ok((raw.to_vec(), Vec::new(), false))
     }
 }
 
@@ -412,7 +410,7 @@ pub fn decode(msg: &[u8]) -> Result<Msg, String> {
             if rdata_start + rdlength > msg.len() {
                 return Err(format!("{:?} record {}: RDLENGTH past end of message", section, i));
             }
-            let (rdata, rdata_names) = decode_rdata(msg, class, rtype, rdata_start, rdlength)
+            let (rdata, rdata_names, irregular) = decode_rdata(msg, class, rtype, rdata_start, rdlength)
                 .map_err(|e| format!("{:?} record {}: {}", section, i, e))?;
             records.push(Record {
                 section,
@@ -425,6 +423,7 @@ pub fn decode(msg: &[u8]) -> Result<Msg, String> {
                 rdata_raw: msg[rdata_start..rdata_start + rdlength].to_vec(),
                 rdata,
                 rdata_names,
+                irregular,
                 start: pos,
                 end: rdata_start + rdlength,
             });
